@@ -240,3 +240,19 @@ Definition configure_min (mods : list modcfg) : Z :=
 (* "the shortest configured notifier interval": a value some module has and no module undercuts *)
 Definition shortest (mods : list modcfg) (i : Z) : Prop :=
   In i (map eff_interval mods) /\ forall m, In m mods -> i <= eff_interval m.
+
+(* ---- the session publisher: zookeeper/coordinator.go :141-160 (mainLoop) ----
+   for event := range eventChan { if event.Type == zk.EventSession { switch event.State {
+     case zk.StateExpired:   ZookeeperConnected = false; ZookeeperExpired.Broadcast()
+     case zk.StateConnected: if !ZookeeperConnected { ZookeeperConnected = true } } } }
+   The model events one zk.Event causes, given the current value of the flag. *)
+Inductive zkstate := ZkExpired | ZkConnected | ZkOtherState.
+
+Definition zk_session (is_session : bool) (st : zkstate) (connected : bool) : list event :=
+  if is_session then
+    match st with
+    | ZkExpired => [Disconnected; Expired]
+    | ZkConnected => if connected then [] else [Connected]
+    | ZkOtherState => []
+    end
+  else [].
